@@ -897,6 +897,12 @@ func (env *Zlisp) Apply(fun *SexpFunction, args []Sexp) (Sexp, error) {
 		env.restoreControlState(callState)
 		return SexpNull, err
 	}
+	// put the program counter back where the caller had it. Inside the VM
+	// the calling instruction does that itself, but a host that calls
+	// Apply directly was left with pc == -1, after which every later
+	// EvalString / Run returned nil without running anything.
+	env.curfunc = callState.curfunc
+	env.pc = callState.pc
 	return res, nil
 }
 
